@@ -313,11 +313,12 @@ Hopen(const char *path, int acc_mode, int16 ndds)
         if (acc_mode != DFACC_CREATE) { /* try to open existing file */
             file_rec->file = (hdf_file_t)HI_OPEN(file_rec->path, acc_mode);
             if (OPENERR(file_rec->file)) {
-                if (acc_mode & DFACC_WRITE) {
-                    /* Seems like the file is not there, try to create it. */
+                if ((acc_mode & DFACC_WRITE) && errno == ENOENT) {
+                    /* The file is not there, try to create it. */
                     new_file = TRUE;
                 }
-                else
+                else /* any other failure (too many open files, permissions, I/O error) must not
+                        end in HI_CREATE(): that would truncate an existing file */
                     HGOTO_ERROR(DFE_BADOPEN, FAIL);
             }
             else {
